@@ -5,15 +5,22 @@
 import re, os
 from tools import cxx2c
 from tools.cxx2c import Lower, Unsupported, kids, qt, qt_sugar, strip, strip_parens, callee_name, norm_type, walk
+import json
+
+
+def json_dumps(x):
+    return json.dumps(x)
 
 NAME = 'OBJM'
 SRC = '/repo/src/bloch/runtime/runtime_evaluator.cpp'
 NAMESPACE = 'bloch::runtime'
 FUNCS = []
-AST_FILTER = ['RuntimeEvaluator::destroyObject', 'RuntimeEvaluator::beginScope', 'bloch::runtime::Value', 'RuntimeEvaluator::exec', 'RuntimeEvaluator::eval']
+AST_FILTER = ['RuntimeEvaluator::destroyObject', 'RuntimeEvaluator::beginScope', 'bloch::runtime::Value', 'RuntimeEvaluator::exec', 'RuntimeEvaluator::eval', 'RuntimeEvaluator::runConstructorChain']
 SHIM = 'objm.h'
 THROWING = set()
-DROPS = ['region member_dispatch: in the member-call branch of RuntimeEvaluator::eval, the then-branch of `if (target.type == Value::Type::Object && target.objectValue)` (which method runs for obj.m(...) / super.m(...)); findClass / findMethod / the vtable lookup are uninterpreted functions, methods are rows of a method table',
+DROPS = ['region ctor_phases: three statements of runConstructorChain in their source order - the `if (cls->base)` block (choice of the base constructor and the recursive call), the runFieldInitialisers(cls, obj) call and the `if (ctor && ctor->body)` body loop; '
+         'what lies between them (tracing to std::cerr, the parameter-to-field copy of `= default` constructors) is dropped; constructors of a class are rows {decl, params}; argumentsConversionCost is an uninterpreted function',
+         'region member_dispatch: in the member-call branch of RuntimeEvaluator::eval, the then-branch of `if (target.type == Value::Type::Object && target.objectValue)` (which method runs for obj.m(...) / super.m(...)); findClass / findMethod / the vtable lookup are uninterpreted functions, methods are rows of a method table',
          'region exec_block: the BlockStatement branch of RuntimeEvaluator::exec (`block` becomes an opaque body identity; exec of the nested statements is the ghost-recording model)',
          'region dtor_walk: the for statement over the class chain inside `if (runUserDestructor && obj->cls)` of destroyObject; `obj`, `runUserDestructor` and the evaluator state become parameters / file-level variables',
          'classes are indices into a class table {base, destructorDecl, name} (0 = null); a declaration and its body are opaque identities; the statements of a body are (body, index) pairs',
@@ -45,6 +52,11 @@ class Profile(Lower):
         (r'^(bloch::compiler::)?Statement \*$', 'bl_stmt'),
         (r'^(bloch::runtime::)?(RuntimeEvaluator::)?VarEntry$', 'VarEntry'),
         (r'^(bloch::runtime::)?RuntimeMethod \*$', 'bl_mth'),
+        (r'^(bloch::compiler::)?ConstructorDeclaration \*$', 'bl_decl'),
+        (r'^(bloch::runtime::)?RuntimeConstructor$', 'bl_ctor'),
+        (r'^std::vector<(bloch::runtime::)?RuntimeConstructor(, .*)?>$', 'bl_ctors'),
+        (r'^std::vector<(bloch::runtime::)?RuntimeTypeInfo(, .*)?>$', 'bl_ptypes'),
+        (r'^std::optional<int>$', 'opt_int'),
         (r'^std::unordered_map<std::(basic_string<char.*>|string), (bloch::runtime::)?RuntimeMethod \*.*>::iterator$', 'bl_mth'),
         (r'^std::__detail::_Node_iterator<std::pair<const std::(basic_string<char.*>|string), (bloch::runtime::)?RuntimeMethod \*>.*$', 'bl_mth'),
         (r'^std::vector<(bloch::runtime::)?Value(, .*)?>( \*)?$', 'bl_argsref'),
@@ -77,6 +89,11 @@ class Profile(Lower):
             return 'BL_NAME_THIS'
         raise Unsupported('string literal ' + n.get('value', ''))
 
+    def call_named(self, n, name, args):
+        if name == 'max' and not args and self.ct(n) == 'int':
+            return '2147483647'        # std::numeric_limits<int>::max()
+        return super().call_named(n, name, args)
+
     def cast_other(self, n, ck, inner):
         if ck == 'UserDefinedConversion':
             return self.expr(inner)
@@ -107,6 +124,12 @@ class Profile(Lower):
             return 'BL_VTABLE(%s)' % self.expr(sb)
         if sb.get('kind') == 'DeclRefExpr' and sb['referencedDecl']['name'] == getattr(self, 'ctx', None) and nm in ('member', 'line', 'column'):
             return '%s_%s' % (self.ctx, nm)
+        if bt == 'bl_clsid' and nm == 'constructors':
+            return 'BL_CTORS(%s)' % self.expr(sb)
+        if bt == 'bl_ctor' and nm in ('decl', 'params'):
+            return 'g_ctor[BL_IDX(%s, KMAX)].%s' % (self.expr(sb), nm)
+        if bt == 'bl_decl' and nm in ('line', 'column'):
+            return 'DECL_%s(%s)' % (nm.upper(), self.expr(sb))
         if bt == 'bl_clsid' and nm in ('base', 'destructorDecl', 'name'):
             return 'g_cls[BL_IDX(%s, CMAX)].%s' % (self.expr(sb), nm)
         if bt == 'bl_objid' and nm == 'cls':
@@ -126,6 +149,10 @@ class Profile(Lower):
         op = callee_name(ks[0])
         args = ks[1:]
         t0 = self.ct(args[0])
+        if op == 'operator*' and len(args) == 1 and t0 == 'opt_int':
+            return '(%s).v' % self.expr(args[0])
+        if op == 'operator[]' and t0 == 'bl_stmts':
+            return 'BODY_STMT(%s, %s)' % (self.expr(args[0])[len('BODY_STMTS('):-1], self.expr(args[1]))
         if op == 'operator->' and t0 in ('bl_body', 'bl_objid', 'bl_mth'):
             return self.expr(args[0])
         if op in ('operator==', 'operator!=') and t0 == 'bl_mth':
@@ -151,6 +178,14 @@ class Profile(Lower):
             return 'objm_exec(%s)' % self.expr(args[0])
         if name == 'back' and so.get('kind') == 'MemberExpr' and so.get('name') == 'm_env':
             return 'BL_TOP_SCOPE'
+        if so.get('kind') == 'CXXThisExpr' and name == 'argumentsConversionCost' and len(args) == 2:
+            return 'objm_argumentsConversionCost(%s)' % self.expr(args[0])       # the argument list is fixed for the call
+        if so.get('kind') == 'CXXThisExpr' and name == 'runConstructorChain' and len(args) == 4:
+            self.needs_prop = True
+            return 'objm_rec_runConstructorChain(%s, %s, %s)' % (self.expr(args[0]), self.expr(args[1]), self.expr(args[2]))
+        if so.get('kind') == 'CXXThisExpr' and name == 'runFieldInitialisers' and len(args) == 2:
+            self.needs_prop = True
+            return 'objm_runFieldInitialisers(%s, %s)' % (self.expr(args[0]), self.expr(args[1]))
         if so.get('kind') == 'CXXThisExpr' and name == 'findClass' and len(args) == 1:
             return 'objm_findClass(%s)' % self.expr(args[0])
         if so.get('kind') == 'CXXThisExpr' and name == 'findMethod' and len(args) == 3:
@@ -160,6 +195,12 @@ class Profile(Lower):
             if vt.startswith('BL_VTABLE('):
                 return 'objm_vtable_find(%s, %s)' % (vt[len('BL_VTABLE('):-1], self.expr(args[0])) if name == 'find' else '((bl_mth)0)'
         t = self.ct(obj)
+        if t == 'opt_int' and name == 'operator bool':
+            return '(%s).has' % self.expr(obj)
+        if t == 'bl_ptypes' and name == 'empty':
+            return 'PTYPES_EMPTY(%s)' % self.expr(obj)
+        if t == 'bl_stmts' and name == 'size':
+            return 'BODY_NSTMTS(%s)' % self.expr(obj)[len('BODY_STMTS('):-1]
         if t == 'bl_cname' and name == 'empty':
             return '(%s == 0)' % self.expr(obj)
         if t == 'bl_objid' and name == 'operator bool':
@@ -202,6 +243,14 @@ class Profile(Lower):
             return 'Value %s = {0};' % v['name']
         return super().decl(v)
 
+    def stmt(self, n, ind):
+        if n.get('kind') == 'IfStmt':
+            refs = []
+            walk(kids(n)[0], lambda z: refs.append(z['referencedDecl'].get('name')) if z.get('kind') == 'DeclRefExpr' else None)
+            if refs == ['kTraceConstructors']:
+                return ['  ' * ind + '/* tracing to std::cerr dropped */;']
+        return super().stmt(n, ind)
+
     def range_for(self, n, ind):
         # for (auto& stmt : <body>->statements)  ->  index loop over (body, i)
         p = '  ' * ind
@@ -210,6 +259,26 @@ class Profile(Lower):
         var = kids(rng[-1])[0]
         rdecl = kids(rng[0])[0]
         init = [i for i in kids(rdecl) if 'kind' in i][0]
+        if self.ctype_safe(qt(init)) == 'bl_ctors':
+            seq = self.expr(init)
+            if not seq.startswith('BL_CTORS('):
+                raise Unsupported('range-for sequence ' + seq)
+            owner = seq[len('BL_CTORS('):-1]
+            k = self.loop_k
+            self.loop_k += 1
+            iv = 'bl_i%d' % k
+            self.locals.add(iv)
+            self.locals.add(var['name'])
+            out = [p + '/*@BEFORELOOP:%s:%d@*/' % (self.fn, k), p + '{', p + '  size_t %s = 0;' % iv,
+                   p + '  for (; %s < CLS_NCTORS(%s); ++%s)' % (iv, owner, iv), p + '    /*@LOOP:%s:%d@*/' % (self.fn, k), p + '  {',
+                   p + '    /*@LOOPBODY:%s:%d@*/' % (self.fn, k),
+                   p + '    bl_ctor %s = CLS_CTOR(%s, %s);' % (var['name'], owner, iv)]
+            body = ks[-1]
+            inner = kids(body) if body.get('kind') == 'CompoundStmt' else [body]
+            for st in inner:
+                out += self.stmt(st, ind + 2)
+            out += [p + '  }', p + '}', p + '/*@AFTERLOOP:%s:%d@*/' % (self.fn, k)]
+            return out
         if self.ctype_safe(qt(init)) != 'bl_stmts':
             raise Unsupported('range-for over ' + qt(init))
         seq = self.expr(init)
@@ -231,6 +300,12 @@ class Profile(Lower):
             out += self.stmt(st, ind + 2)
         out += [p + '  }', p + '}', p + '/*@AFTERLOOP:%s:%d@*/' % (self.fn, k)]
         return out
+
+
+def has_call(n, name):
+    f = []
+    walk(n, lambda z: f.append(1) if z.get('kind') == 'CXXMemberCallExpr' and strip(kids(z)[0]).get('name') == name else None)
+    return bool(f)
 
 
 def lower_regions(docs, prof):
@@ -276,6 +351,38 @@ def lower_regions(docs, prof):
     except Unsupported as e:
         prof.region_unlowered = {'exec_block': str(e)}
         out.append(('void objm_exec_block(bl_body block)', None))
+    # construction phases: base constructor chain, field initialisers, constructor body - in their source order
+    hc = 'void objm_ctor_phases(bl_clsid cls, bl_objid obj, bl_decl ctor, _Bool hasExplicitSuper)'
+    try:
+        rc = cxx2c.find_functions(docs, 'runConstructorChain')
+        if len(rc) != 1:
+            raise Unsupported('runConstructorChain: %d definitions' % len(rc))
+        st = kids([k for k in kids(rc[0]) if k.get('kind') == 'CompoundStmt'][0])
+        picks = []
+        for x in st:
+            refs, mems, calls = [], [], []
+            walk(x, lambda z: refs.append(z['referencedDecl'].get('name')) if z.get('kind') == 'DeclRefExpr' else None)
+            if x.get('kind') == 'IfStmt':
+                walk(kids(x)[0], lambda z: mems.append(z.get('name')) if z.get('kind') == 'MemberExpr' else None)
+            cx = strip(x)
+            if x.get('kind') == 'IfStmt' and mems == ['base']:
+                picks.append(('base', x))
+            elif cx.get('kind') == 'CXXMemberCallExpr' and strip(kids(cx)[0]).get('name') == 'runFieldInitialisers':
+                picks.append(('fields', x))
+            elif x.get('kind') == 'IfStmt' and 'body' in mems and 'ctor' in refs and 'isDefault' not in mems and has_call(x, 'exec'):
+                picks.append(('body', x))
+        if sorted(k for k, _ in picks) != ['base', 'body', 'fields']:
+            raise Unsupported('ctor_phases: expected the three phase statements once each, found %s' % [k for k, _ in picks])
+        prof.ctx = None
+        prof.locals |= {'cls', 'obj', 'ctor', 'hasExplicitSuper', 'superArgs', 'superCtorDecl', 'args'}
+        d4 = dict(kind='FunctionDecl', name='ctor_phases', type=dict(qualType='void ()'), inner=[dict(kind='CompoundStmt', inner=[x for _, x in picks])])
+        h4, l4 = prof.func(d4, cname='ctor_phases', is_method=False)
+        out.append((hc, l4))
+    except Unsupported as e:
+        if not hasattr(prof, 'region_unlowered'):
+            prof.region_unlowered = {}
+        prof.region_unlowered['ctor_phases'] = str(e)
+        out.append((hc, None))
     # which method runs for obj.m(...): the object branch of the member-call dispatch in eval
     hd = 'void objm_member_dispatch(Value target, _Bool viaSuper, bl_cname member_member)'
     try:
@@ -323,7 +430,8 @@ size_t k1, k2; bl_clsid ca, cb;              /* ghost: two positions k1 < k2 on 
 _Bool g_hasA, g_hasB; size_t g_nsA, g_nsB, g_ns;     /* ghost: precomputed facts (no calls in invariants) */
 int g_a_entered, g_b_entered; _Bool g_a_started, g_b_started, g_b_started_when_a, g_a_this_ok, g_b_this_ok;
 size_t g_depth, g_depth0, g_a_depth, g_b_depth; Value g_this; _Bool g_this_valid; bl_objid g_obj;
-bl_clsid g_ctx0; _Bool g_st0, g_ct0, g_dt0; int g_begins, g_ends; size_t g_blk_n;
+bl_clsid g_ctx0; _Bool g_st0, g_ct0, g_dt0; int g_begins, g_ends; size_t g_blk_n; int g_pclock, g_exec_n, g_exec_first_t; bl_stmt g_exec_first_stmt, g_first_body;
+typedef int bl_ctor; typedef int bl_ctors; typedef int bl_ptypes; typedef struct { _Bool has; int v; } opt_int;
 #ifndef NATIVE
 bl_clsid __CPROVER_uninterpreted_obj_cls(bl_objid); bl_body __CPROVER_uninterpreted_decl_body(bl_decl); size_t __CPROVER_uninterpreted_body_nstmts(bl_body); bl_stmt __CPROVER_uninterpreted_body_stmt(bl_body, size_t);
 #define OBJ_CLS(o) __CPROVER_uninterpreted_obj_cls(o)
@@ -346,6 +454,9 @@ static inline void objm_beginScope(void) {
 static inline void objm_endScope(void) { if (g_depth > 0) g_depth = g_depth - 1; g_this_valid = 0; if (g_ends < 1000) g_ends = g_ends + 1; }
 static inline void objm_put_top(bl_cname name, VarEntry e) { if (name == BL_NAME_THIS) { g_this = e.value; g_this_valid = 1; } }
 static inline void objm_exec(bl_stmt s) {
+  if (g_pclock < 1000000) g_pclock = g_pclock + 1;
+  if (g_exec_n == 0) { g_exec_first_t = g_pclock; g_exec_first_stmt = s; }
+  if (g_exec_n < 1000000) g_exec_n = g_exec_n + 1;
   _Bool ok = g_this_valid && g_this.type == BL_Object && g_this.objectValue == g_obj && ev_m_currentClassCtx > 0 && ev_m_currentClassCtx < CMAX && g_this.className == g_cls[ev_m_currentClassCtx].name;
   if (ev_m_inDestructor && ev_m_currentClassCtx == ca && !g_a_started) { g_a_started = 1; g_b_started_when_a = g_b_started; g_a_this_ok = ok; g_a_depth = g_depth; }
   if (ev_m_inDestructor && ev_m_currentClassCtx == cb && !g_b_started) { g_b_started = 1; g_b_this_ok = ok; g_b_depth = g_depth; }
@@ -370,6 +481,36 @@ static inline bl_mth objm_vtable_find(bl_clsid c, bl_cname sig) { return VT(c, s
 #define DYN_CLS OBJ_CLS(target.objectValue)
 #define STATIC_CLS ((target.className != 0 && CLS_OF_NAME(target.className) != 0) ? CLS_OF_NAME(target.className) : DYN_CLS)
 #define FOUND METHOD_OF(STATIC_CLS, member_member)
+/* ---- region ctor_phases: constructors as rows, phase events on a ghost clock */
+#ifndef KMAX
+#define KMAX 8
+#endif
+typedef struct { bl_decl decl; bl_ptypes params; } CtorRow; CtorRow g_ctor[KMAX];
+bl_decl superCtorDecl;                     /* local of runConstructorChain that the region sets */
+int g_n_base, g_t_base, g_n_fields, g_t_fields; bl_clsid g_base_cls, g_fields_cls; bl_objid g_base_obj, g_fields_obj; bl_decl g_base_decl; _Bool g_base_raised, g_fields_raised;
+size_t g_cb_n;
+#ifndef NATIVE
+unsigned __CPROVER_uninterpreted_cls_nctors(bl_clsid); unsigned __CPROVER_uninterpreted_cls_ctor(bl_clsid, size_t); int __CPROVER_uninterpreted_ptypes_empty(bl_ptypes);
+int __CPROVER_uninterpreted_cost_has(bl_ptypes); int __CPROVER_uninterpreted_cost_v(bl_ptypes); int __CPROVER_uninterpreted_decl_line(bl_decl); int __CPROVER_uninterpreted_decl_column(bl_decl);
+#define CLS_NCTORS(c) ((size_t)(__CPROVER_uninterpreted_cls_nctors(c) % 4))
+#define CLS_CTOR(c, i) ((bl_ctor)(__CPROVER_uninterpreted_cls_ctor(c, i) % KMAX))
+#define PTYPES_EMPTY(p) (__CPROVER_uninterpreted_ptypes_empty(p) != 0)
+#define DECL_LINE(d) __CPROVER_uninterpreted_decl_line(d)
+#define DECL_COLUMN(d) __CPROVER_uninterpreted_decl_column(d)
+static inline opt_int objm_argumentsConversionCost(bl_ptypes p) { opt_int r; r.has = __CPROVER_uninterpreted_cost_has(p) != 0; r.v = __CPROVER_uninterpreted_cost_v(p); return r; }
+static inline void objm_rec_runConstructorChain(bl_clsid c, bl_objid o, bl_decl d) {
+  if (g_pclock < 1000000) g_pclock = g_pclock + 1;
+  if (g_n_base == 0) { g_t_base = g_pclock; g_base_cls = c; g_base_obj = o; g_base_decl = d; }
+  if (g_n_base < 1000) g_n_base = g_n_base + 1;
+  if (nondet_bool()) { g_base_raised = 1; bl_throw(BL_Runtime, 0, 0); }
+}
+static inline void objm_runFieldInitialisers(bl_clsid c, bl_objid o) {
+  if (g_pclock < 1000000) g_pclock = g_pclock + 1;
+  if (g_n_fields == 0) { g_t_fields = g_pclock; g_fields_cls = c; g_fields_obj = o; }
+  if (g_n_fields < 1000) g_n_fields = g_n_fields + 1;
+  if (nondet_bool()) { g_fields_raised = 1; bl_throw(BL_Runtime, 0, 0); }
+}
+#endif
 #define HASDTOR(c) (g_cls[c].destructorDecl != 0 && DECL_BODY(g_cls[c].destructorDecl) != 0)
 #define NSTM(c) BODY_NSTMTS(DECL_BODY(g_cls[c].destructorDecl))
 /* the class table is acyclic (bases before derived classes) and g_chain is the chain of obj->cls */
@@ -391,7 +532,7 @@ def A(t):
     return ('', 'assigns', t, [])
 
 
-GH_ALL = 'g_begins, g_ends, ev_m_currentClassCtx, ev_m_inStaticContext, ev_m_inConstructor, ev_m_inDestructor, ev_m_hasReturn, g_a_entered, g_b_entered, g_a_started, g_b_started, g_b_started_when_a, g_a_this_ok, g_b_this_ok, g_depth, g_a_depth, g_b_depth, g_this, g_this_valid'
+GH_ALL = 'g_pclock, g_exec_n, g_exec_first_t, g_exec_first_stmt, g_begins, g_ends, ev_m_currentClassCtx, ev_m_inStaticContext, ev_m_inConstructor, ev_m_inDestructor, ev_m_hasReturn, g_a_entered, g_b_entered, g_a_started, g_b_started, g_b_started_when_a, g_a_this_ok, g_b_this_ok, g_depth, g_a_depth, g_b_depth, g_this, g_this_valid'
 INV_CTX = 'ev_m_currentClassCtx == g_ctx0 && ev_m_inStaticContext == g_st0 && ev_m_inConstructor == g_ct0 && ev_m_inDestructor == g_dt0 && g_depth == g_depth0'
 CONTRACTS = {
     'dtor_walk': {
@@ -423,7 +564,7 @@ CONTRACTS = {
                     ('dtor_walk.outer.this_b', 'g_b_started ==> (g_b_this_ok && g_b_depth == g_depth0 + 1)'),
                 ],
                 'decreases': 'cur'},
-            1: {'assigns': 'bl_i1, ev_m_hasReturn, g_a_started, g_b_started, g_b_started_when_a, g_a_this_ok, g_b_this_ok, g_a_depth, g_b_depth',
+            1: {'assigns': 'bl_i1, ev_m_hasReturn, g_pclock, g_exec_n, g_exec_first_t, g_exec_first_stmt, g_a_started, g_b_started, g_b_started_when_a, g_a_this_ok, g_b_this_ok, g_a_depth, g_b_depth',
                 'before': 'g_ns = BODY_NSTMTS(DECL_BODY(g_cls[cur].destructorDecl));', 'ghost_in_bounded': True,
                 'invariants': [
                     ('dtor_walk.inner.bounds', 'bl_i1 <= g_ns'),
@@ -444,10 +585,43 @@ CONTRACTS['exec_block'] = {
         # C09: a block opens exactly one scope and closes it on EVERY path (also when a nested statement returns), so nothing of it stays on the scope stack
         E('exec.block.scope_closed_on_every_path', 'g_depth == __CPROVER_old(g_depth) && g_begins == 1 && g_ends == 1', ['C09', 'C17']),
     ],
-    'loops': {0: {'assigns': 'bl_i0, ev_m_hasReturn, g_a_started, g_b_started, g_b_started_when_a, g_a_this_ok, g_b_this_ok, g_a_depth, g_b_depth', 'ghost_in_bounded': True,
+    'loops': {0: {'assigns': 'bl_i0, ev_m_hasReturn, g_pclock, g_exec_n, g_exec_first_t, g_exec_first_stmt, g_a_started, g_b_started, g_b_started_when_a, g_a_this_ok, g_b_this_ok, g_a_depth, g_b_depth', 'ghost_in_bounded': True,
                   'before': 'g_blk_n = BODY_NSTMTS(block);',
                   'invariants': [('exec_block.loop.bounds', 'bl_i0 <= g_blk_n')],
                   'decreases': 'g_blk_n - bl_i0'}},
+}
+PH = 'g_n_base, g_t_base, g_n_fields, g_t_fields, g_base_cls, g_fields_cls, g_base_obj, g_fields_obj, g_base_decl, g_base_raised, g_fields_raised, superCtorDecl, g_cb_n, bl_exc, bl_exc_line, bl_exc_col'
+FIRST_BODY = 'BODY_STMT(DECL_BODY(ctor), (size_t)(hasExplicitSuper ? 1 : 0))'
+CONTRACTS['ctor_phases'] = {
+    'contract': [
+        R('bl_exc == 0 && cls >= 1 && cls < CMAX && TABLE_OK && g_pclock == 0 && g_exec_n == 0 && g_n_base == 0 && g_n_fields == 0 && !g_base_raised && !g_fields_raised'),
+        A(GH_ALL + ', g_first_body, ' + PH),
+        E('construction.only_located_runtime_errors', 'bl_exc == 0 || bl_exc == BL_EXC(BL_Runtime)', ['C12', 'C08']),
+        # C08: an object is built base-first: base constructor (chain), then this class's field initialisers, then its constructor body
+        E('construction.base_constructor_chain_runs_first', '(bl_exc == 0 && g_cls[cls].base != 0) ==> (g_n_base == 1 && g_base_cls == g_cls[cls].base && g_base_obj == obj && g_n_fields == 1 && g_t_base < g_t_fields)', ['C08']),
+        E('construction.no_base_no_chain', '(g_cls[cls].base == 0) ==> g_n_base == 0', ['C08']),
+        E('construction.field_initialisers_once_before_the_body', '(bl_exc == 0) ==> (g_n_fields == 1 && g_fields_cls == cls && g_fields_obj == obj && (g_exec_n > 0 ==> g_t_fields < g_exec_first_t))', ['C08']),
+        E('construction.body_starts_after_the_explicit_super_statement', '(bl_exc == 0 && g_exec_n > 0) ==> (ctor != 0 && g_exec_first_stmt == ' + FIRST_BODY + ')', ['C08']),
+        E('construction.body_runs_when_there_is_one', '(bl_exc == 0 && ctor != 0 && DECL_BODY(ctor) != 0 && BODY_NSTMTS(DECL_BODY(ctor)) > (size_t)(hasExplicitSuper ? 1 : 0)) ==> g_exec_n > 0', ['C08']),
+        E('construction.failed_base_chain_stops_construction', 'g_base_raised ==> (g_n_fields == 0 && g_exec_n == 0 && bl_exc != 0)', ['C08']),
+        E('construction.failed_field_initialiser_stops_construction', 'g_fields_raised ==> (g_exec_n == 0 && bl_exc != 0)', ['C08']),
+    ],
+    'loops': {
+        0: {'assigns': 'bl_i0, bestCost, superCtorDecl, matchedSuperCtor, ambiguousSuperCtor',
+            'before': 'g_cb_n = CLS_NCTORS(g_cls[cls].base);',
+            'invariants': [('ctor_phases.explicit.bounds', 'bl_i0 <= g_cb_n')], 'decreases': 'g_cb_n - bl_i0'},
+        1: {'assigns': 'bl_i1, superCtorDecl, zeroArgMatches',
+            'before': 'g_cb_n = CLS_NCTORS(g_cls[cls].base);',
+            'invariants': [('ctor_phases.implicit.bounds', 'bl_i1 <= g_cb_n && zeroArgMatches >= 0 && (size_t)zeroArgMatches <= bl_i1')], 'decreases': 'g_cb_n - bl_i1'},
+        2: {'assigns': 'i, ev_m_hasReturn, g_pclock, g_exec_n, g_exec_first_t, g_exec_first_stmt, g_a_started, g_b_started, g_b_started_when_a, g_a_this_ok, g_b_this_ok, g_a_depth, g_b_depth',
+            'before': 'g_cb_n = BODY_NSTMTS(DECL_BODY(ctor));', 'ghost_in_bounded': True,
+            'invariants': [('ctor_phases.body.bounds', 'i >= startIdx && (i <= g_cb_n || i == startIdx) && g_pclock >= 0 && g_pclock <= 1000000 && g_exec_n >= 0'),
+                           ('ctor_phases.body.first_statement', '(g_exec_n == 0) == (i == startIdx)'),
+                           ('ctor_phases.body.started_after_fields', '(g_exec_n > 0) ==> (g_exec_first_stmt == g_first_body && g_t_fields < g_exec_first_t)'),
+                           ('ctor_phases.body.clock', 'g_t_fields <= g_pclock')],
+            'decreases': '(g_cb_n > i) ? g_cb_n - i : 0'},
+    },
+    'prologue': 'g_first_body = ' + FIRST_BODY + ';',
 }
 CONTRACTS['member_dispatch'] = {
     'contract': [
@@ -462,6 +636,8 @@ CONTRACTS['member_dispatch'] = {
     ],
 }
 HARNESSES = [
+    dict(name='ctor_phases', fn='ctor_phases', replace=[], flags=[], props=['C08', 'C12'], timeout=600, unwind=6,
+         canaries=[('bl_exc == 0 && g_n_base == 1 && g_exec_n > 0', 'base chain, fields and body all ran'), ('bl_exc != 0', 'construction failed')]),
     dict(name='member_dispatch', fn='member_dispatch', replace=[], flags=[], props=['C08', 'C12'], timeout=300,
          canaries=[('method != 0 && !a1', 'a method was selected'), ('a1', 'super call')]),
     dict(name='exec_block', fn='exec_block', replace=[], flags=[], props=['C09', 'C17', 'C12'], timeout=300, unwind=5,
